@@ -46,7 +46,7 @@ A2 = ["CS(=O)CC", "CN=CC", "CC(=NO)C", "C(F)(Cl)=C=C(F)Cl", "CC=NN", "C[S+]([O-]
 
 def gen_cases(ctx):
     rng = ctx.rng
-    n = ctx.n(640, 12000)
+    n = ctx.n(3200, 40000)
     for i in range(n):
         fam = i % 8
         if fam < 4:
